@@ -3,7 +3,7 @@
    whatever the parent-scan estimates are. *)
 From Coq Require Import List NArith Bool Arith Lia Permutation.
 From Verif.Common Require Import Labels.
-From Verif.C07 Require Import Model Spec MapLemmas RestrProofs CandProofs.
+From Verif.C07 Require Import Model Spec MapLemmas RestrProofs SliceProofs CandProofs.
 Import ListNotations.
 Open Scope N_scope.
 
@@ -140,12 +140,12 @@ Theorem iter_candidates_superset :
   let x := {| np_eps := fold_left nv_step opsE nv_empty; np_pars := fold_left nv_step opsP nv_empty; np_children := kids |} in
   nlookup e (nv_items (np_eps x)) = Some L ->
   (forall p, In p ps -> nlookup p (nv_items (np_pars x)) <> None -> In e (np_kids x p)) ->
-  Permutation (restrictions a) R' ->
+  Permutation (restrictions_f a) R' ->
   eval a (effective L (map (fun p => odflt [] (nlookup p (nv_items (np_pars x)))) ps)) = true ->
   In e (iter_candidates pest x R').
 Proof.
   intros pest opsE opsP kids e L ps a R' x He Hk HP Hev.
   apply (iter_candidates_sound pest x (nv_inv_run opsE) (nv_inv_run opsP) e L ps He Hk).
-  intros k r Hin. apply (restrictions_sound a _ Hev).
+  intros k r Hin. apply (restrictions_f_sound a _ Hev).
   eapply Permutation_in; [apply Permutation_sym; eauto|auto].
 Qed.
